@@ -4,6 +4,7 @@ import (
 	"fmt"
 	"go/token"
 	"go/types"
+	"morlockverif/checker/internal/core"
 	"sort"
 	"strings"
 
@@ -240,7 +241,7 @@ func c18Sources(c *Ctx, reach map[*ssa.Function][]*ssa.Function) {
 	}
 	r.Check(len(seeds) == 0 && nNew >= 3, "R18-sources", "random generators are seeded from explicit parameters", "", "", strings.Join(seeds, "; "))
 	// Engine.Reset: NewRandom(int(e.opts.Noise), e.seed)
-	if reset := c.P.Func("pkg/engine", "Engine", "Reset"); reset != nil {
+	if reset := c.find("pkg/engine", "Engine", "Reset"); reset != nil {
 		good := false
 		detail := ""
 		for _, b := range reset.Blocks {
@@ -276,7 +277,7 @@ func c18State(c *Ctx, reach map[*ssa.Function][]*ssa.Function) {
 		for _, b := range fn.Blocks {
 			for _, ins := range b.Instrs {
 				if al, ok := ins.(*ssa.Alloc); ok && al.Heap {
-					if n := namedOf(al.Type()); n != nil && strings.HasPrefix(n.Obj().Name(), "run") {
+					if n := namedOf(al.Type()); n != nil && strings.HasPrefix(core.ObjName(n.Obj()), "run") {
 						perSearch[n.Obj()] = true
 					}
 				}
@@ -295,10 +296,10 @@ func c18State(c *Ctx, reach map[*ssa.Function][]*ssa.Function) {
 			p = n.Obj().Pkg().Path()
 		}
 		// the exclusive board and its history, the lock-free table (C17)
-		if strings.HasSuffix(p, "/pkg/board") && (n.Obj().Name() == "Board" || n.Obj().Name() == "node" || n.Obj().Name() == "Position" || n.Obj().Name() == "RotatedBitboard") {
+		if strings.HasSuffix(p, "/pkg/board") && (core.ObjName(n.Obj()) == "Board" || core.ObjName(n.Obj()) == "node" || core.ObjName(n.Obj()) == "Position" || core.ObjName(n.Obj()) == "RotatedBitboard") {
 			return true
 		}
-		if strings.HasSuffix(p, "/pkg/search") && n.Obj().Name() == "table" {
+		if strings.HasSuffix(p, "/pkg/search") && core.ObjName(n.Obj()) == "table" {
 			return true
 		}
 		return false
@@ -324,7 +325,7 @@ func c18State(c *Ctx, reach map[*ssa.Function][]*ssa.Function) {
 		if allowedType(fs.Named) {
 			continue
 		}
-		key := fs.Named.Obj().Pkg().Name() + "." + fs.Named.Obj().Name() + "." + fs.Field
+		key := fs.Named.Obj().Pkg().Name() + "." + core.ObjName(fs.Named.Obj()) + "." + fs.Field
 		if _, ok := frozen[key]; ok {
 			usedFrozen[key] = true
 			continue
@@ -364,8 +365,8 @@ func c18State(c *Ctx, reach map[*ssa.Function][]*ssa.Function) {
 	r.Check(len(bad) == 0 && n > 0, "R18-state", "search code keeps no state across calls", "", "", strings.Join(bad, "; "))
 
 	// the frozen exception's justification: Hook.Search resets the evaluator first, on every path
-	hook := c.P.Func("cmd/sargon/sargon", "Hook", "Search")
-	reset := c.P.Func("cmd/sargon/sargon", "Points", "Reset")
+	hook := c.find("cmd/sargon/sargon", "Hook", "Search")
+	reset := c.find("cmd/sargon/sargon", "Points", "Reset")
 	if len(usedFrozen) > 0 {
 		good := false
 		if hook != nil && reset != nil {
@@ -453,7 +454,7 @@ func faFieldName(fa *ssa.FieldAddr) string {
 	t := fa.X.Type().Underlying()
 	if pt, ok := t.(*types.Pointer); ok {
 		if st, ok := pt.Elem().Underlying().(*types.Struct); ok && fa.Field < st.NumFields() {
-			return st.Field(fa.Field).Name()
+			return core.FieldName(st.Field(fa.Field))
 		}
 	}
 	return fmt.Sprintf("#%d", fa.Field)
